@@ -13,6 +13,15 @@
    DISTINCT, GROUP BY with count/sum/avg/min/max/array_agg (+DISTINCT), ORDER BY ASC|DESC, LIMIT n >= 0,
    subquery in FROM, WITH — with plain literals; a LIMIT without ORDER BY only over a source whose row order is
    determined (not directly over grouping output, which the real SimpleGroupBy emits in hash order).
+   Value fragment: NULL, Int, Boolean, String, Float without NaN and -0 (64-bit patterns; compared through
+   Value.Compare; no Float arithmetic), lists of those.
+   Column names are modelled: select items may have no alias (the name of the field read, col_<i>, for grouping
+   <aggregate>_<field> / <aggregate> / field / key_<i>) and names may repeat (the _<n> rule of getUniqueName and of
+   logical.Map's existingFields loop); `*` and `t.*` expand in place; a subquery's fields are requalified.  The
+   name rule of a plain select list (out_schema) is one definition used by both semantics; for a grouping select
+   the pipeline finds its columns BY NAME in the GroupBy node's schema while den_top takes them by position —
+   in_fragment asks (decidable: group_names_ok) that every generated name resolves to its own column, which fails
+   only when two GroupBy fields share a name (an alias equal to an unselected key's key_<i>, a key selected twice).
    Both semantics share the expression evaluator and the name resolution (see the header of Model/Rel.v). *)
 From Coq Require Import Permutation.
 From Octo Require Import Values Rel RelProofs.
@@ -65,6 +74,31 @@ Example C01_hypotheses_satisfiable :
   in_fragment wit_group = true /\ plain_db wit_table = true /\
   exists r, den_top wit_table wit_group = Ok r /\ length (rrows r) = 3%nat.
 Proof. destruct wit_group_result as [A [B [_ D]]]. repeat split; try assumption. eexists. split; [exact D|reflexivity]. Qed.
+
+(* The unique-name rule: the output columns of a select list have pairwise different (qualified) names. *)
+Theorem C01_unique_names : forall src items outs, out_schema false src items = Ok outs -> NoDup outs.
+Proof. exact out_schema_distinct. Qed.
+Print Assumptions C01_unique_names.
+
+(* Before the `fix:` (logical/map.go advanced the counter of the suffixed name) a third column of one name repeated
+   the second one's name — SELECT a AS x, b AS x, a AS x: x, x_1, x_1 (the CLI then printed an empty name). *)
+Theorem C01_pinned_third_name_refuted : exists t db,
+  in_fragment t = true /\ plain_db db = true /\
+  (exists r, exec_top_pinned_names db t = Ok r /\ ~ NoDup (rsch r)) /\
+  (exists r, exec_top db t = Ok r /\ printed_names (rsch r) = [[120]; [120; 95; 49]; [120; 95; 50]]).
+Proof. exists wit_triple_map, wit_table. exact pinned_triple_map. Qed.
+Print Assumptions C01_pinned_third_name_refuted.
+
+(* Non-vacuity for the names: SELECT a, count(b), sum(b) AS count_b, count( * ) ... GROUP BY a  and
+   SELECT a, t.a, a + 1, t.*, b AS a FROM t  are in the fragment; the printed names are
+   a, count_b, count_b_1, count  and  t.a, a_1, col_2, a_2, b, a. *)
+Example C01_names_satisfiable :
+  in_fragment wit_names_group = true /\ in_fragment wit_names_map = true /\
+  (exists r, den_top wit_table wit_names_group = Ok r /\
+     printed_names (rsch r) = [[97]; [99; 111; 117; 110; 116; 95; 98]; [99; 111; 117; 110; 116; 95; 98; 95; 49]; [99; 111; 117; 110; 116]]) /\
+  (exists r, den_top wit_table wit_names_map = Ok r /\
+     printed_names (rsch r) = [[116; 46; 97]; [97; 95; 49]; [99; 111; 108; 95; 50]; [97; 95; 50]; [98]; [97]]).
+Proof. exact wit_names_results. Qed.
 
 (* stream_native: the pinned code printed a record with fmt.Fprintf(os.Stdout, record.String()+"\n"); a '%' in
    the data was taken as a verb ('%d' came out as '%!d(MISSING)').  After the `fix:` the line is the record text. *)
